@@ -11,7 +11,7 @@ import numpy as np
 from hypothesis import strategies as st
 
 from .. import entropy
-from ..envdrive import case_cfg, gen_case_strategy, ops_strategy, resolve_action, shipped_case_strategy
+from ..envdrive import case_cfg, expand_ops, gen_case_strategy, ops_strategy, resolve_action, shipped_case_strategy
 from ..harness import CaseResult, Ctx, hyp_run
 from ..simutil import exc_msg, exc_sig, norm_state
 from ..traj_worker import canon, step_digest
@@ -75,7 +75,7 @@ def obs_diff_key(a, b, path="") -> Optional[str]:
 
 def drive(env, ops: List, meta, record: Optional[List], label: str, keep_state: bool = False):
     """Apply ops; append digests to record. Returns an error tuple or None."""
-    for i, op in enumerate(ops):
+    for i, op in enumerate(expand_ops(ops, meta)):
         try:
             if op[0] == "reset":
                 obs, _ = env.reset(seed=op[1]) if op[1] is not None else env.reset()
@@ -362,7 +362,67 @@ def run_instances(case: Dict, res: CaseResult):
     res.nontrivial = switches >= 2 and differing
 
 
+def run_pristine_batch(cases: List[Dict], tag: str) -> List[Dict]:
+    """One fresh interpreter per case (run in parallel): returns traj_worker results."""
+    import os
+    import subprocess
+    import sys
+
+    from ..harness import VERIF
+
+    work = os.path.join(os.environ.get("VERIF_WORK", "/tmp"), f"c04-{tag}-{os.getpid()}")
+    os.makedirs(work, exist_ok=True)
+    procs = []
+    for i, c in enumerate(cases):
+        bp, op = os.path.join(work, f"b{i}.json"), os.path.join(work, f"o{i}.json")
+        with open(bp, "w") as f:
+            json.dump({"variant": {"label": "pristine", "entropy": {}}, "cases": [dict(c, rvc=True)]}, f)
+        env = dict(os.environ, PYTHONHASHSEED="0", VERIF_CHILD_HOME=os.path.join(work, f"home{i}"))
+        procs.append((subprocess.Popen([sys.executable, "-W", "ignore", "-m", "vlib.traj_worker", bp, op], cwd=VERIF, env=env,
+                                       stdout=subprocess.DEVNULL, stderr=subprocess.PIPE), op))
+    outs = []
+    for p, op in procs:
+        _, err = p.communicate()
+        if p.returncode != 0 or not os.path.exists(op):
+            raise RuntimeError(f"traj_worker (pristine) failed rc={p.returncode}: {err.decode()[-1500:]}")
+        with open(op) as f:
+            outs.append(json.load(f)["results"][0])
+    import shutil
+
+    shutil.rmtree(work, ignore_errors=True)
+    return outs
+
+
+def judge_pristine(case: Dict, out: Dict) -> CaseResult:
+    from .c03 import diff_episode
+
+    res = CaseResult()
+    res.label("mode:pristine_reset_vs_construct")
+    if out.get("error"):
+        res.label("pristine_raised")
+        return res
+    a, b = out["episodes"]
+    d = diff_episode(a, b)
+    if d:
+        key = d[0]
+        if key == "first-obs" or key == "obs":
+            key = "obs:" + str(obs_diff_key(a.get("first_obs"), b.get("first_obs")) if d[0] == "first-obs" else _first_obs_diff(a, b))
+        res.violate(f"first-construction-differs-from-reset:{key}",
+                    f"in a fresh interpreter the first constructed environment and one after reset(seed={case['seed']}) differ: {d[1]}")
+    res.nontrivial = len(a["steps"]) >= 2
+    return res
+
+
+def _first_obs_diff(a, b):
+    for s, t in zip(a["steps"], b["steps"]):
+        if s["obs"] != t["obs"]:
+            return obs_diff_key(s["obs"], t["obs"])
+    return "?"
+
+
 def run_case(case: Dict) -> CaseResult:
+    if case.get("mode") == "pristine":
+        return judge_pristine(case, run_pristine_batch([case], "replay")[0])
     res = CaseResult()
     mode = case.get("mode", "episode")
     if mode == "episode":
@@ -428,3 +488,20 @@ def worker(ctx: Ctx):
     hyp_run(ctx, episode_case(paths), run_case, 3 if q else 100, sub=1)
     hyp_run(ctx, rvc_case(), run_case, 6 if q else 200, sub=2)
     hyp_run(ctx, instances_case(same_nmne="C04-nmne-config-global" in ctx.excl), run_case, 6 if q else 250, sub=3)
+    # reset vs construction with the constructed environment being the FIRST one of a fresh interpreter
+    from .c03 import collect
+
+    @st.composite
+    def pristine_case(draw):
+        c = draw(gen_case_strategy(max_ops=8, allow_off=False))
+        c["spec"]["obs"]["links"] = True
+        c["spec"]["obs"]["flatten"] = False
+        c["seed"] = draw(st.integers(0, 500))
+        c["mode"] = "pristine"
+        return c
+
+    cases = collect(pristine_case(), 2 if q else 24, ctx.wseed * 10 + 7)
+    for i in range(0, len(cases), 4):
+        part = cases[i:i + 4]
+        for case, out in zip(part, run_pristine_batch(part, f"w{ctx.idx}-{i}")):
+            ctx.record(case, judge_pristine(case, out))
